@@ -7,7 +7,7 @@ use serde_json::{json, Value};
 pub const DEF: PropDef = PropDef {
     id: "C15",
     level: "exploration",
-    rule: "25 base programs with up to 3 name placeholders in every name position (targets, operands, subscripts, listen, build/knock, rock/roll, mutation operand / destination, parameters, function and call names, poetic assignment, pronoun referents, erroring uses); for each: all 6^k fillings from three name kinds x two alphabets (simple zed / élan, common the zed / my élan, proper Zed Yod / Élan Über Zed; distinct words per placeholder so that distinct spellings denote distinct variables); for every filling every single mention re-cased in each admissible way (proper names keep their capitals), all mentions re-cased at once, (thorough) all pairs of re-cased mentions, and all keywords upper-cased / title-cased; oracle (metamorphic, no reference interpreter): stdout and outcome class equal those of the all-simple-lowercase filling; non-trivial = every case (two executions compared); distinct = distinct program text",
+    rule: "35 base programs with up to 3 name placeholders in every name position (targets, operands, subscripts, listen, build/knock, rock/roll, mutation operand / destination, parameters, function and call names, poetic assignment, pronoun referents, erroring uses, 's / 're contractions, a name shared by a function and a parameter or variable); for each: all 6^k fillings from three name kinds x two alphabets (simple zed / élan, common the zed / my élan, proper Zed Yod / Élan Über Zed; distinct words per placeholder so that distinct spellings denote distinct variables); for every filling every single mention re-cased in each admissible way (proper names keep their capitals), all mentions re-cased at once, (thorough) all pairs of re-cased mentions, and all keywords upper-cased / title-cased / aLtErNaTeD / AlTeRnAtEd; oracle (metamorphic, no reference interpreter): stdout and outcome class equal those of the all-simple-lowercase filling; non-trivial = every case (two executions compared); distinct = distinct program text",
     assumptions: &["error messages quote names as spelled and are therefore compared by class (ok / runtime error / parse error) only"],
     build,
     exhaustive: true,
@@ -39,6 +39,18 @@ pub const BASES: &[&str] = &[
     "put true into @1\nif @1\nput 1 into @2\nsay @2\nelse\nsay 0\n\nsay @1\n",
     "put 0 into @1\nuntil @1 is 3\nbuild @1 up\n\nsay @1\n",
     "@1 takes @2 and @3\ngive back @2 minus @3\n\nput @1 taking 9, 4 into @2\nsay @2\n@1 taking 1, 1\n",
+    // contractions are keywords too
+    "@1's 5\n@2're 6\nsay @1 plus @2\n",
+    "put 1 into @1\nthey're 7\nsay @1\nit's 8\nsay @1\n",
+    "@1's 5\nsay @1's 5\nif @1's 5\nsay 1\n\n",
+    // a name used for a function and for a parameter / variable (whatever the outcome, it must not depend on case)
+    "@1 takes @2\ngive back @2 times 2\n\n@3 takes @1\ngive back @1 taking @1\n\nsay @1 taking 1\nsay @3 taking 4\n",
+    "@1 takes @2\ngive back @2 times 2\n\n@3 takes @1\ngive back @1 plus 1\n\nsay @1 taking 1\nsay @3 taking 4\nsay @1 taking 2\n",
+    "@1 takes @1\nsay @1\ngive back 0\n\nsay @1 taking 3\nsay @1 taking 4\n",
+    "@1 takes @2\ngive back @2\n\nsay @1 taking 1\nif true\nput 5 into @1\nsay @1 taking 2\n\nsay @1 taking 3\n",
+    "@1 takes @2\ngive back @2\n\nsay @1 taking 1\nsay @1 taking 2\nput 0 into @3\nwhile @3 is less than 2\nbuild @3 up\nsay @1 taking @3\n\n",
+    "put 1 into @1\n@2 takes @3\nsay @1\nput 2 into @1\ngive back @1\n\nsay @2 taking 0\nsay @1\nsay @2 taking 0\nsay @1\n",
+    "put 1 into @1\nif true\nput 2 into @2\nsay @1 plus @2\n\nsay @2\n",
 ];
 
 /// per placeholder: (spelling, kind) — kind 0 simple, 1 common, 2 proper
@@ -142,7 +154,12 @@ fn recase_keywords(base: &str, mode: usize) -> String {
         let mut word = String::new();
         let flush = |w: &mut String, out: &mut String| {
             if !w.is_empty() {
-                out.push_str(&if mode == 0 { upper(w) } else { title(w) });
+                out.push_str(&match mode {
+                    0 => upper(w),
+                    1 => title(w),
+                    2 => alternate(w),
+                    _ => title(&alternate(&upper(w).to_lowercase())).chars().enumerate().map(|(i, c)| if i % 2 == 0 { c.to_uppercase().collect::<String>() } else { c.to_lowercase().collect::<String>() }).collect(),
+                });
                 w.clear();
             }
         };
@@ -190,7 +207,7 @@ fn build(tier: Tier) -> Box<dyn Check> {
         let k = placeholders(base);
         let m = mentions(base);
         let fillings = six.seq_exact(k);
-        let mut variants = vec![Variant::Filling, Variant::AllMentions(0), Variant::AllMentions(1), Variant::AllMentions(2), Variant::Keywords(0), Variant::Keywords(1)];
+        let mut variants = vec![Variant::Filling, Variant::AllMentions(0), Variant::AllMentions(1), Variant::AllMentions(2), Variant::Keywords(0), Variant::Keywords(1), Variant::Keywords(2), Variant::Keywords(3)];
         for i in 0..m.len() {
             for r in 0..5 {
                 variants.push(Variant::OneMention(i, r));
